@@ -67,6 +67,11 @@ func decorate(rt *rapid.T, label string, kids []*tnode) []*tnode {
 		if k.link != "" || len(k.name) > 200 || rapid.IntRange(0, 3).Draw(rt, l+"_forks") != 0 {
 			continue
 		}
+		if rapid.IntRange(0, 2).Draw(rt, l+"_infoOnly") == 0 {
+			// only an information fork is stored (what set-comment leaves behind): no resource fork side file at all
+			k.rsrc, k.info = []byte{}, true
+			continue
+		}
 		k.rsrc = genBytes(rt, l+"_rsrc", rapid.IntRange(1, 300).Draw(rt, l+"_rsrclen"))
 		k.info = rapid.Bool().Draw(rt, l+"_info")
 	}
@@ -164,7 +169,7 @@ func writeTree(dir string, kids []*tnode) {
 			must(os.Symlink(filepath.Join(dir, k.link), p))
 		} else {
 			must(os.WriteFile(p, k.data, 0o644))
-			if k.rsrc != nil {
+			if len(k.rsrc) > 0 {
 				must(os.WriteFile(filepath.Join(dir, ".rsrc_"+k.name), k.rsrc, 0o644))
 			}
 			if k.info {
